@@ -61,6 +61,12 @@ def _parent_rows(variant):
     ctl, tmap, smap, extra_plate = variant
     t = lambda n: ctl if n == "CTL" else tmap.get(n, n)  # noqa: E731
     s = lambda n: smap.get(n, n)  # noqa: E731
+    dm = tmap.get("__doses__", {})  # optional re-scaling of the two dose levels (molar units, nearly equal doses)
+    rows = _parent_rows_base(t, s, extra_plate)
+    return [(r[0], r[1], tuple((n, dm.get(repr(float(d)), d) if d else d) for n, d in r[2]), r[3], r[4]) for r in rows]
+
+
+def _parent_rows_base(t, s, extra_plate):
     rows = [
         (s("s0"), "p0", ((t("a"), 1.0), (t("b"), 1.0)), 0.31, True),
         (s("s1"), "p0", ((t("a"), 1.0), (t("CTL"), 0.0)), 0.42, True),
@@ -88,6 +94,9 @@ def parents(tier):
         pick = combos[::3]
     for ctl, ti, si, extra in pick:
         out.append((ctl, tmaps[ti], smaps[si], extra))
+    # dose levels a float join can trip over: molar units (1e-8, 2e-8) and two doses of one drug that agree to 7 digits
+    out.append(("", {"U": "0first", "__doses__": {"1.0": 1e-8, "2.0": 2e-8}}, smaps[0], False))
+    out.append(("ctl", {"U": "zlast", "__doses__": {"1.0": 1.0, "2.0": 1.0000001}}, smaps[2], True))
     return out
 
 
